@@ -25,7 +25,7 @@ RULE = (
     "Layer A (plug-in alone): the callables the SciPy plug-in hands to minimize / differential_evolution are captured "
     "and driven by the harness acting as the algorithm: all request sequences of length <=3 (quick) / <=4 (thorough) "
     "over {objective, gradient, constraint value k, constraint Jacobian k} x pool of 3 points (two far apart, one "
-    "identical copy) - batches of 1-2 pool points for vectorized differential evolution - x speculative x "
+    "identical copy) - batches of 1-2 pool points for vectorized differential evolution - x speculative x start vector (configuration | run_step(variables=)) x "
     "split_evaluations x {no, non-linear, linear, both} constraints x {slsqp, l-bfgs-b, cobyla, nelder-mead, DE serial, "
     "DE vectorized}. Oracle: every returned value equals the value at that point (truth function / fresh instance), "
     "a second start() of the same instance on a changed problem serves nothing from the first run (length <=2), "
@@ -41,6 +41,7 @@ ASSUMPTIONS = [
 ]
 
 POOL = [np.array([0.3, -0.4, 0.8]), np.array([1.5, 0.9, -0.6]), np.array([0.3, -0.4, 0.8])]
+START = np.array([-0.7, 1.1, 0.2])  # start vector handed to run_step(variables=) instead of the configured initial values
 TARGET = np.array([0.5, 0.1, -0.2])
 A_NL = np.array([[1.0, -2.0, 0.5]])
 A_LIN = [[1.0, 1.0, 0.0]]
@@ -347,7 +348,7 @@ def run_stack(case: dict[str, Any], sequence: list[Any]) -> tuple[list[Any], Aff
         marks.append(len(ev.calls))
 
     with capture(driver):
-        code = plan.run_step(step, config=stack_config(case))
+        code = plan.run_step(step, config=stack_config(case), variables=START.copy() if case.get("start") else None)
     check(code == OptimizerExitCode.OPTIMIZER_STEP_FINISHED, "harness", f"exit code {code}", case)
     return out, ev, events, marks
 
@@ -360,7 +361,7 @@ def run_stack_case(case: dict[str, Any]) -> dict[str, Any]:  # noqa: C901, PLR09
     cfg = EnOptConfig.model_validate(stack_config(case))
 
     def full(i: int) -> np.ndarray:
-        x = POOL[0].copy()
+        x = (START if case.get("start") else POOL[0]).copy()  # fixed entries keep the values the step was started with
         x[mask] = POOL[i][mask]
         return x
 
@@ -433,7 +434,7 @@ def hypothesis_shard(item: dict[str, Any]) -> Collector:
         if cons in ("lin", "both") and mask is not None and not mask[0]:
             mask = None
         return {"layer": "B", "method": mname, "cons": cons, "split": draw(st.booleans()), "speculative": draw(st.booleans()),
-                "weights": [draw(st.sampled_from([1.0, 2.0])) for _ in range(r_n)], "mask": mask,
+                "weights": [draw(st.sampled_from([1.0, 2.0])) for _ in range(r_n)], "mask": mask, "start": draw(st.booleans()),
                 "slopes": [draw(st.sampled_from([-1.0, 0.5, 1.0, 2.0])) for _ in range(r_n * (1 + n_con) * 3)],
                 "offsets": [draw(st.sampled_from([-0.5, 0.0, 1.0])) for _ in range(r_n * (1 + n_con))], "sequence": seq}
 
@@ -441,7 +442,8 @@ def hypothesis_shard(item: dict[str, Any]) -> Collector:
         info = run_stack_case(case)
         col.case(case, nontrivial=info["new_point_first"], classes=(
             "layer-B", f"method={case['method']}", f"cons={case['cons']}", "split" if case["split"] else "combined",
-            "speculative" if case["speculative"] else "plain", "masked" if case["mask"] else "unmasked"))
+            "speculative" if case["speculative"] else "plain", "masked" if case["mask"] else "unmasked",
+            "start=argument" if case.get("start") else "start=config"))
 
     run_hypothesis(col, cases(), body, seed=item["seed"], max_examples=item["examples"])
     return col
